@@ -121,6 +121,10 @@ SHAPES = [  # frequent real-world shapes and the corner cases around the mapper'
     lambda n: ["seq", [["el", n[0], ""], ["seq", [["el", n[1], ""], ["el", n[2 % len(n)], "?"]], "*"]], ""],
     lambda n: ["or", [["seq", [["el", n[0], ""], ["el", n[1], "*"]], ""], ["el", n[2 % len(n)], ""]], ""],
     lambda n: ["or", [["el", n[0], ""], ["or", [["el", n[1], ""], ["el", n[2 % len(n)], ""]], "*"]], ""],
+    lambda n: ["or", [["el", n[0], ""], ["el", n[1], ""], ["el", n[2 % len(n)], ""]], "*"] if len(n) > 2 else ["el", n[0], "*"],
+    lambda n: ["or", [["el", n[0], ""], ["el", n[1], ""], ["el", n[2 % len(n)], ""]], "+"] if len(n) > 2 else ["el", n[0], "+"],
+    lambda n: ["seq", [["el", n[0], ""], ["or", [["el", n[1], ""], ["el", n[2 % len(n)], ""], ["el", n[3 % len(n)], ""]], "*"]], ""]
+    if len(n) > 3 else ["el", n[0], "+"],
     lambda n: ["el", n[0], "+"],
     lambda n: ["el", n[0], "*"],
     lambda n: ["el", n[0], ""],
@@ -215,7 +219,10 @@ def gen_dtd(rng, flavour=None):
         prefixes["p"] = rng.choice(URIS)
         names = ["p:" + x for x in names]
     elif flavour == "prefix-attrs":
-        prefixes["p"] = rng.choice(URIS)
+        uris = list(URIS)
+        rng.shuffle(uris)
+        for pfx in ["p", "ex", "q"][:rng.choice([1, 2, 2, 3, 3])]:
+            prefixes[pfx] = uris.pop()
     elif flavour == "default-ns":
         default_ns = rng.choice(URIS)
     elements = []
@@ -268,18 +275,38 @@ def gen_dtd(rng, flavour=None):
             if rng.random() < 0.5:
                 a["dflt"], a["value"] = "DEFAULT", "en"
             el["attrs"].append(a)
-        if flavour == "prefix-attrs" and (i == 0 or rng.random() < 0.4):
-            if i > 0:
-                el["attrs"].append({"name": "xmlns:p", "type": "CDATA", "values": [], "dflt": "FIXED", "value": prefixes["p"]})
+        if flavour == "prefix-attrs" and (i == 0 or rng.random() < 0.5):
             taken = {_norm(a["name"].split(":")[-1]) for a in el["attrs"]}
-            for an in rng.sample([x for x in ["k", "kind", "id2", "n", "q1"] if _norm(x) not in taken], rng.choice([1, 2])):
-                a = gen_attr(rng, "p:" + an, True)
-                if a["type"] in ("IDREF", "IDREFS"):
-                    a["type"] = "CDATA"
-                el["attrs"].append(a)
+            pool = [x for x in ["k", "kind", "id2", "n", "q1", "rel", "href", "w"] if _norm(x) not in taken]
+            rng.shuffle(pool)
+            used = [p for p in prefixes if i == 0 or rng.random() < 0.7] or [next(iter(prefixes))]
+            for pfx in used:
+                for _k in range(rng.choice([1, 1, 2])):
+                    if not pool:
+                        break
+                    a = gen_attr(rng, pfx + ":" + pool.pop(), True)
+                    if a["type"] in ("IDREF", "IDREFS"):
+                        a["type"] = "CDATA"
+                    el["attrs"].append(a)
+            # the namespace declarations, anywhere in the ATTLIST: in front, at the end, next to each other, scattered
+            decls = [{"name": "xmlns:" + pfx, "type": "CDATA", "values": [], "dflt": "FIXED", "value": prefixes[pfx]}
+                     for pfx in (prefixes if i == 0 else used)]
+            rng.shuffle(decls)
+            where = rng.choice(["front", "last", "last", "scattered", "middle"])
+            if where == "front":
+                el["attrs"] = decls + el["attrs"]
+            elif where == "last":
+                el["attrs"] = el["attrs"] + decls
+            elif where == "middle":
+                k = rng.randint(0, len(el["attrs"]))
+                el["attrs"] = el["attrs"][:k] + decls + el["attrs"][k:]
+            else:
+                for dcl in decls:
+                    el["attrs"].insert(rng.randint(0, len(el["attrs"])), dcl)
     root = elements[0]
-    for p, u in prefixes.items():
-        root["attrs"].insert(0, {"name": "xmlns:" + p, "type": "CDATA", "values": [], "dflt": "FIXED", "value": u})
+    if flavour != "prefix-attrs":
+        for p, u in prefixes.items():
+            root["attrs"].insert(0, {"name": "xmlns:" + p, "type": "CDATA", "values": [], "dflt": "FIXED", "value": u})
     if default_ns:
         root["attrs"].insert(0, {"name": "xmlns", "type": "CDATA", "values": [], "dflt": "FIXED", "value": default_ns})
     return {"root": names[0], "prefixes": prefixes, "default_ns": default_ns, "elements": elements, "flavour": flavour or "plain"}
